@@ -16,6 +16,7 @@ import (
 	"os"
 	"sort"
 	"strings"
+	"sync"
 	"time"
 
 	"github.com/php-any/origami/data"
@@ -216,6 +217,25 @@ func apply(vm data.VM, o op, label string, zvals map[*data.ZVal]int) string {
 			zvals[zv] = id
 		}
 		return fmt.Sprintf("reg-zval#%d", id)
+	case "ListClasses":
+		// round 5: a listing is a value - the caller keeps it, and a later definition must not change it
+		lv, ok := vm.(interface{ AllClasses() []data.ClassStmt })
+		if !ok {
+			return "unsupported"
+		}
+		l := lv.AllClasses()
+		heldMu.Lock()
+		held[strings.SplitN(label, ".", 2)[0]] = l
+		heldMu.Unlock()
+		return classNames(l)
+	case "RereadClasses":
+		heldMu.Lock()
+		l, ok := held[strings.SplitN(label, ".", 2)[0]]
+		heldMu.Unlock()
+		if !ok {
+			return "none"
+		}
+		return classNames(l)
 	case "SetFile":
 		vm.SetPhpFileCache("/x/" + o.Name + ".php")
 		return "ok"
@@ -237,11 +257,42 @@ type state struct {
 	vm    data.VM
 }
 
+// listings kept by ListClasses, per thread ("T0"); cleared before every sequential run / execution
+var (
+	heldMu sync.Mutex
+	held   = map[string][]data.ClassStmt{}
+)
+
+func heldReset() {
+	heldMu.Lock()
+	held = map[string][]data.ClassStmt{}
+	heldMu.Unlock()
+}
+
+func classNames(l []data.ClassStmt) string {
+	ns := make([]string, len(l))
+	for i, c := range l {
+		if c == nil {
+			ns[i] = "<nil>"
+		} else {
+			ns[i] = c.GetName()
+		}
+	}
+	return strings.Join(ns, ",")
+}
+
+// listOps is the alphabet of the listing family: four definitions (a slice that grows by doubling has spare
+// capacity only from the third element on), take a listing, read the kept listing again.
+func listOps() []op {
+	return []op{{"AddClass", "A"}, {"AddClass", "X"}, {"AddClass", "Y"}, {"AddClass", "x"}, {"ListClasses", ""}, {"RereadClasses", ""}}
+}
+
 func newVM() data.VM { return ort.NewVM(parser.NewParser()) }
 
 func build(sc scenario) (func() []sched.Body, func() *state) {
 	var st *state
 	setup := func() []sched.Body {
+		heldReset()
 		st = &state{vm: newVM()}
 		zv := map[*data.ZVal]int{}
 		var bodies []sched.Body
@@ -267,6 +318,7 @@ func build(sc scenario) (func() []sched.Body, func() *state) {
 
 // seqRun runs the calls in the given order on a fresh VM, uncontrolled.
 func seqRun(sc scenario, order [][2]int) []string {
+	heldReset()
 	vm := newVM()
 	temps := map[int]data.VM{}
 	zv := map[*data.ZVal]int{}
@@ -513,10 +565,12 @@ type mstate struct {
 	globals                        map[string]int
 	files                          map[string]bool
 	nextZ                          int
+	held                           string
+	hasHeld                        bool
 }
 
 func newM() *mstate {
-	return &mstate{map[string]string{}, map[string]string{}, map[string]string{}, map[string]string{}, map[string]int{}, map[string]bool{}, 0}
+	return &mstate{map[string]string{}, map[string]string{}, map[string]string{}, map[string]string{}, map[string]int{}, map[string]bool{}, 0, "", false}
 }
 
 func (m *mstate) apply(o op, label string) string {
@@ -627,6 +681,19 @@ func (m *mstate) apply(o op, label string) string {
 			m.globals[o.Name] = id
 		}
 		return fmt.Sprintf("reg-zval#%d", id)
+	case "ListClasses":
+		var ns []string
+		for n := range m.classes {
+			ns = append(ns, n)
+		}
+		sort.Strings(ns)
+		m.held, m.hasHeld = strings.Join(ns, ","), true
+		return m.held
+	case "RereadClasses":
+		if !m.hasHeld {
+			return "none"
+		}
+		return m.held
 	case "SetFile":
 		m.files[o.Name] = true
 		return "ok"
@@ -656,14 +723,18 @@ func allOps() []op {
 }
 
 type seqShard struct {
-	First int `json:"first"`
-	Len   int `json:"len"`
+	First int  `json:"first"`
+	Len   int  `json:"len"`
+	List  bool `json:"list,omitempty"` // listing family: alphabet listOps()
 }
 
 func seqBind(w *pool.W, arg json.RawMessage) {
 	var sh seqShard
 	json.Unmarshal(arg, &sh)
 	ops := allOps()
+	if sh.List {
+		ops = listOps()
+	}
 	if !w.Item(fmt.Sprint("seq", sh)) {
 		return
 	}
@@ -793,6 +864,12 @@ func main() {
 	for l := 1; l <= maxSeq; l++ {
 		for f := range allOps() {
 			shards = append(shards, pool.Shard{Kind: "seq", Arg: seqShard{First: f, Len: l}})
+		}
+	}
+	// listing family: every sequence of <= 6 operations over listOps() against the model (a kept listing never changes)
+	for l := 1; l <= 6; l++ {
+		for f := range listOps() {
+			shards = append(shards, pool.Shard{Kind: "seq", Arg: seqShard{First: f, Len: l, List: true}})
 		}
 	}
 	// spread scenarios round-robin over batches so that heavy families are distributed
